@@ -146,6 +146,8 @@ fn vec_of<E: Elem>(len: usize, cap_mode: u8) -> Vec<E> {
 struct Script<E: Elem> {
     remaining: usize,
     /// 0: (0, None)   1: exact   2: bounded but loose (0, Some(2 rem + 1))   3: (0, Some(usize::MAX))   4: (rem, Some(usize::MAX))
+    /// 5: counts down from one short, (0, Some(rem - 1)): after N of N + 1 items it reads "exhausted" while one item is left
+    /// (only enumerated for source lengths other than N, where the outcome does not depend on whether the hint is believed)
     hint: u8,
     _p: core::marker::PhantomData<E>,
 }
@@ -166,7 +168,8 @@ impl<E: Elem> Iterator for Script<E> {
             1 => (self.remaining, Some(self.remaining)),
             2 => (0, Some(2 * self.remaining + 1)),
             3 => (0, Some(usize::MAX)),
-            _ => (self.remaining, Some(usize::MAX)),
+            4 => (self.remaining, Some(usize::MAX)),
+            _ => (0, Some(self.remaining.saturating_sub(1))),
         }
     }
 }
@@ -669,9 +672,10 @@ fn for_each_case(mut visit: impl FnMut(&str, CaseFn)) {
                         let mut v = vec![0, 1, n / 2, n];
                         v.sort(); v.dedup(); v
                     } else { vec![n] };
-                    let caps: &[u8] = if matches!(op, TryBoxedFromIter | BoxFromIter) { &[0, 1, 2, 3, 4] } else if op.takes_cap() { &[0, 1, 2] } else { &[0] };
+                    let caps: &[u8] = if matches!(op, TryBoxedFromIter | BoxFromIter) { &[0, 1, 2, 3, 4, 5] } else if op.takes_cap() { &[0, 1, 2] } else { &[0] };
                     for &l in &ls {
                         for &cap in caps {
+                            if cap == 5 && l == n { continue; }
                             let d = format!("{op:?};N={n};E={};L={l};cap={cap}", <$E as Elem>::NAME);
                             visit(&d, &|f| run_case::<N, $E>(op, l, cap, f));
                         }
